@@ -762,11 +762,80 @@ def run_mixed(ctx):
             ctx.diverge("threads:mixed", dict(inp, op=mline[:300]), m[:300], wsum[:200])
 
 
+def close_crossing_run(stream_chunks, schedule, accepts):
+    """thread 0 receives (and so replies to the server's close frame); thread 1 calls close()."""
+    import websocket
+    b = Baton()
+    with library_locks(b):
+        ws = websocket.WebSocket()
+        sock = simnet.SimSocket(stream_chunks, accepts=accepts)
+        ws.sock = BatonSocket(sock, b)
+        ws.connected = True
+        ws.set_mask_key(lambda n: b"\x00" * n)
+        got = []
+
+        def reader():
+            for _ in range(3):
+                try:
+                    got.append(ws.recv())
+                except Exception as e:  # noqa
+                    got.append("X:" + common.canon_exc(e))
+                    break
+
+        def closer():
+            try:
+                ws.close(1001, b"going away", timeout=1)
+            except Exception as e:  # noqa
+                got.append("close-raised:" + common.canon_exc(e))
+        b.spawn(0, reader)
+        b.spawn(1, closer)
+        eff = b.run(schedule, prestart=False)
+    return bytes(sock.sent), eff, got
+
+
+def run_close_crossing(ctx):
+    """C08's clause "at most one close frame on the client's own initiative" under THREAD schedules: a reader thread takes the
+    server's close frame while another thread is inside close() (crossing close frames), every interleaving at the yield
+    points (locks, transport reads and writes).  Oracle only (zero-key frames on the wire are counted)."""
+    rnd = ctx.rng("close-crossing")
+    n = 400 if ctx.thorough() else 150
+    for it in range(n):
+        pre = [F(1, b"hi")] if it % 2 else []
+        stream = b"".join(f.enc() for f in pre + [F(8, b"\x03\xe8")])
+        chunks = [("chunk", c) for c in rx.partitions(stream, rnd, 1)[-1]]
+        acc = nz([rnd.choice([1, 2, 3, 50]) for _ in range(rnd.randint(1, 3))])
+        if it % 3 == 0:
+            sched = [1] * rnd.randint(1, 12) + [0] * rnd.randint(1, 30) + [rnd.randrange(2) for _ in range(40)]
+        else:
+            sched = [rnd.randrange(2) for _ in range(rnd.randint(0, 80))]
+        wire, eff, got = close_crossing_run(chunks, sched, acc)
+        rest, closes, ok = wire, [], True
+        while rest:
+            if len(rest) < 6:
+                ok = False
+                break
+            ln = rest[1] & 0x7F
+            if ln > 125 or len(rest) < 6 + ln:
+                ok = False
+                break
+            if rest[0] & 0x0F == 8:
+                closes.append(rest[6:6 + ln])
+            rest = rest[6 + ln:]
+        switches = sum(1 for a, b_ in zip(eff, eff[1:]) if a != b_)
+        ctx.case(key=("close-crossing", it), nontrivial=switches > 1, cls=f"close-crossing:closes={len(closes)}")
+        inp = {"op": "threads-close-crossing", "stream": stream.hex(), "accepts": acc, "schedule": eff[:120]}
+        # (a frame cut short at the END of the wire is not judged: the reader may release the transport — end of stream — while
+        #  the other thread is still writing; whole frames before it are counted)
+        if len(closes) > 1:
+            ctx.violate("at-most-one-own-close-frame", "second-close-frame@reader-vs-close()", inp, "at most one close frame written by the client",
+                        [c.hex() for c in closes], size=len(eff))
+
+
 def run(ctx):
     ctx.rule = ("(a) every composition of the frame length as an accept pattern for frames of 6..10 bytes, sampled patterns for 125..100000 "
                 "bytes; (b) 2 threads x every schedule of length 9 (11), 3 threads x every schedule of length 6 (8), random 2-4 threads with "
                 "random payloads/patterns/schedules, co-simulated with the Lean interleaving model; (c) 2-3 receiver threads, fragmented "
-                "messages with control frames, random schedules, the Lean receivers model driven by the observed lock-acquisition order; (c') 1-3 receivers polling with a socket timeout, silences between and inside the frames of fragmented messages (oracle only); (d) one receiver answering 1-3 pings while 1-2 threads send under short writes, co-simulated with the Lean programs model (the receiver = a thread whose program is the pongs); (a'') the write loop over the transport glue: every list of up to 3 `_socket.send` worlds (short writes incl. 0 and over-long, would-block with the wait expiring or not, timeouts, SSL EOF, OS errors) x blocking/non-blocking, against Model.SendGlue.sendLoop; (a''') sends through `WrappedDispatcher` with a queueing external loop and a transport that takes bytes in pieces; (a') the short-write sends again on an object equipped with a dispatcher; (b') 2-4 threads each sending 0-3 frames (send_binary / ping / pong), 2 threads x every schedule of length 10 (12), co-simulated with the Lean programs model at yield-point granularity; the library's own locks are scheduled (none assigned by the harness). non-trivial = more than one piece / more than one context switch")
+                "messages with control frames, random schedules, the Lean receivers model driven by the observed lock-acquisition order; (c') 1-3 receivers polling with a socket timeout, silences between and inside the frames of fragmented messages (oracle only); (d) one receiver answering 1-3 pings while 1-2 threads send under short writes, co-simulated with the Lean programs model (the receiver = a thread whose program is the pongs); (a'') the write loop over the transport glue: every list of up to 3 `_socket.send` worlds (short writes incl. 0 and over-long, would-block with the wait expiring or not, timeouts, SSL EOF, OS errors) x blocking/non-blocking, against Model.SendGlue.sendLoop; (a''') sends through `WrappedDispatcher` with a queueing external loop and a transport that takes bytes in pieces; (a') the short-write sends again on an object equipped with a dispatcher; (b') 2-4 threads each sending 0-3 frames (send_binary / ping / pong), 2 threads x every schedule of length 10 (12), co-simulated with the Lean programs model at yield-point granularity; the library's own locks are scheduled (none assigned by the harness). (e) a reader thread and a thread inside close() with crossing close frames: at most one close frame written by the client (oracle only). non-trivial = more than one piece / more than one context switch")
     run_short_writes(ctx)
     run_eagain(ctx)
     from props import c12_glue
@@ -778,6 +847,7 @@ def run(ctx):
     run_polling_receivers(ctx)
     run_frame_receivers(ctx)
     run_mixed(ctx)
+    run_close_crossing(ctx)
 
 
 def search(ctx):
